@@ -40,9 +40,9 @@ CONSTANTS Hosts, MaxPerHost, MaxHops, Fixed, Emit, CredSources, Cut, Kinds, ActH
 Scheme(h) == IF h = "plain" THEN "http" ELSE "https"
 Answers == {<<"ok", "-">>, <<"unauth", "-">>} \cup {<<"redir", t>> : t \in Hosts}
 
-VARIABLES pc, host, hdr, hops, access, origHdr, frames, sawHttps, log, hlog, script, mode, source, form, result, kind, acthost, qtry
-vars == <<pc, host, hdr, hops, access, origHdr, frames, sawHttps, log, hlog, script, mode, source, form, result, kind, acthost, qtry>>
-View == <<pc, host, hdr, hops, access, origHdr, frames, sawHttps, script, mode, source, form, result, kind, acthost, qtry>>
+VARIABLES pc, host, hdr, hops, access, origHdr, frames, sawHttps, log, hlog, script, mode, source, form, cache, result, kind, acthost, qtry
+vars == <<pc, host, hdr, hops, access, origHdr, frames, sawHttps, log, hlog, script, mode, source, form, cache, result, kind, acthost, qtry>>
+View == <<pc, host, hdr, hops, access, origHdr, frames, sawHttps, script, mode, source, form, cache, result, kind, acthost, qtry>>
 
 Init == /\ kind \in Kinds /\ acthost \in ActHosts /\ (kind = "api" => acthost = "api")
         /\ pc = "start" /\ host = "api" /\ hdr = "none" /\ hops = 0 /\ qtry = 0
@@ -54,6 +54,10 @@ Init == /\ kind \in Kinds /\ acthost \in ActHosts /\ (kind = "api" => acthost = 
         \* as an absolute URL.  The identity a Location denotes (RFC 3986, 5.2) is all the rules below
         \* ever look at: the form is never an argument of an action.
         /\ form \in Forms
+        \* cache: the in-process credential cache (lfs.cachecredentials, on by default) stands in front of
+        \* the helper: credentials it holds for an identity (approved earlier in this run, not rejected
+        \* since) are handed out without asking the helper.  An identity is scheme://host:port there too.
+        /\ cache \in BOOLEAN
         \* a transfer request runs under the access mode recorded for its own URL (none until a 401 teaches
         \* otherwise), through DoWithAuthNoRetry; an API request under the mode configured for the API URL
         /\ access = IF kind = "storage" THEN "none" ELSE mode
@@ -65,7 +69,17 @@ GetCreds(h, carried, acc) ==
   ELSE IF h # "api" THEN <<h, TRUE>>                          \* request not for the API identity: helper asked for the request URL
   ELSE IF source = "urluser" THEN <<"api", FALSE>>            \* userinfo of the configured URL
   ELSE <<"api", TRUE>>
-Fill(h, g) == IF g[2] THEN Append(hlog, <<"fill", h>>) ELSE hlog
+RECURSIVE LastVerdict(_, _)
+LastVerdict(l, h) == IF l = <<>> THEN "none"
+                     ELSE IF l[Len(l)][2] = h /\ l[Len(l)][1] \in {"approve", "reject"} THEN l[Len(l)][1]
+                     ELSE LastVerdict(SubSeq(l, 1, Len(l) - 1), h)
+\* what the helper behind the cache gets to see of a sequence of calls: a fill or an approve for an identity
+\* the cache holds stops at the cache (creds.credentialCacher); a reject always goes through
+RECURSIVE Seen(_, _)
+Seen(evs, l) == IF evs = <<>> THEN l
+                ELSE LET e == Head(evs) IN
+                     Seen(Tail(evs), IF e[1] \in {"fill", "approve"} /\ cache /\ LastVerdict(l, e[2]) = "approve" THEN l ELSE Append(l, e))
+Fill(h, g) == IF g[2] THEN Seen(<< <<"fill", h>> >>, hlog) ELSE hlog
 
 \* DoWithAuth: (re)start the chain with the caller's request
 Start == /\ pc = "start"
@@ -75,9 +89,9 @@ Start == /\ pc = "start"
             \* a transfer attempt begins with the batch call that hands out the action: an API request of
             \* its own (not followed here), for which the helper is asked and approved under basic access
             /\ hlog' = IF kind = "storage" /\ mode = "basic" /\ source = "helper"
-                         THEN hlog \o << <<"fill", "api">>, <<"approve", "api">> >> ELSE Fill(acthost, g)
+                         THEN Seen(<< <<"fill", "api">>, <<"approve", "api">> >>, hlog) ELSE Fill(acthost, g)
          /\ pc' = "send" /\ sawHttps' = FALSE
-         /\ UNCHANGED <<access, log, script, mode, source, form, result, kind, acthost, qtry>>
+         /\ UNCHANGED <<access, log, script, mode, source, form, cache, result, kind, acthost, qtry>>
 
 \* net/http itself adds Basic credentials from the userinfo of the URL it is given: the caller's
 \* request goes to the configured URL; a Location never spells userinfo here, but a path-only
@@ -86,7 +100,7 @@ Wire == IF hdr = "none" /\ frames[Len(frames)].ui THEN "api" ELSE hdr
 Send == /\ pc = "send" /\ pc' = "wait"
         /\ log' = Append(log, [host |-> host, auth |-> Wire, scheme |-> Scheme(host), hop |-> hops, afterHttps |-> sawHttps])
         /\ sawHttps' = (sawHttps \/ Scheme(host) = "https")
-        /\ UNCHANGED <<host, hdr, hops, access, origHdr, frames, hlog, script, mode, source, form, result, kind, acthost, qtry>>
+        /\ UNCHANGED <<host, hdr, hops, access, origHdr, frames, hlog, script, mode, source, form, cache, result, kind, acthost, qtry>>
 
 \* helper calls made while the frames unwind, innermost first
 Unwind(what) == LET n == Len(frames)
@@ -111,9 +125,9 @@ Respond(a) ==
   /\ IF Len(script[host]) < MaxPerHost /\ Len(log) < Cut
        THEN script' = [script EXCEPT ![host] = Append(@, a)]
        ELSE a = Implicit(host) /\ script' = script
-  /\ UNCHANGED <<log, mode, source, form, sawHttps, kind, acthost>>
+  /\ UNCHANGED <<log, mode, source, form, cache, sawHttps, kind, acthost>>
   /\ IF a[1] = "ok" THEN
-        /\ hlog' = hlog \o Unwind("approve") /\ access' = access /\ Finish("ok")
+        /\ hlog' = Seen(Unwind("approve"), hlog) /\ access' = access /\ Finish("ok")
      ELSE IF a[1] = "unauth" THEN
         /\ hlog' = hlog \o Unwind("reject")
         /\ access' = "basic"                                    \* Lfs-Authenticate: Basic
@@ -144,7 +158,7 @@ ChainBounded == hops < MaxHops
 HelperSound  == \A i \in DOMAIN hlog : hlog[i][1] \in {"approve", "reject"} =>
                    \E j \in 1..(i - 1) : hlog[j] = <<"fill", hlog[i][2]>>
 
-Script == [mode |-> mode, source |-> source, form |-> form, kind |-> kind, acthost |-> acthost, answers |-> script',
+Script == [mode |-> mode, source |-> source, form |-> form, cache |-> cache, kind |-> kind, acthost |-> acthost, answers |-> script',
            reqs |-> [i \in DOMAIN log |-> <<log[i].host, log[i].auth>>], helper |-> hlog', result |-> result']
 EmitEdge == (Emit /\ pc' = "done" /\ pc # "done") => CSVWrite("%1$s", <<ToJson(Script)>>, IOEnv.OUT)
 =============================================================================
